@@ -114,7 +114,7 @@ def gen_mibdump(rng, tier):
     by_file_name = rng.random() < 0.15
     if by_file_name:
         # asked for by the name of the file (lower case, no extension) rather than by the module name
-        fnames[req[0]] = req[0].lower() + '.txt'
+        fnames[req[0]] = rng.choice([req[0].lower() + '.txt', 'vendor-%s-v2.txt' % req[0][:3].lower(), 'vendor-%s-v2.txt' % req[0][:3].lower()])
         req = [(fnames[m].rsplit('.', 1)[0] if fnames.get(m) and fnames[m] != m and fnames[m].endswith('.txt') else m) for m in req]
     scn = {'tool': 'mibdump', 'modules': specs, 'fnames': fnames, 'format': fmt, 'flags': flags, 'requested': req,
            'dest': rng.choice(['missing', 'empty', 'populated'] + (['populated'] * 3 if by_file_name else [])), 'listing_seed': rng.randrange(1 << 30)}
